@@ -152,6 +152,8 @@ class RealSystem:
     def create(self, kind, name):
         o = self.spec[kind][name]
         q = {p: mkq(o[p]) for p in quant_params(kind, o)}
+        key = name
+        name = o.get("display_name", name)      # names are free text and need not be unique (the key is the harness's)
         if kind == "storages":
             return Storage(name, fixed_nb_of_instances=mkq(o.get("fixed_nb_of_instances")), **q)
         if kind == "servers":
@@ -169,7 +171,7 @@ class RealSystem:
         if kind == "networks":
             return Network(name, **q)
         if kind == "countries":
-            return Country(name, name[:3].upper(), timezone=SourceObject(pytz.timezone(o["timezone"])), **q)
+            return Country(name, key[:3].upper(), timezone=SourceObject(pytz.timezone(o["timezone"])), **q)
         if kind == "patterns":
             return UsagePattern(name, usage_journey=self.objs[o["usage_journey"]],
                                 devices=[self.objs[d] for d in o["devices"]], network=self.objs[o["network"]],
